@@ -137,6 +137,12 @@ func (r *Rng) Quoted() string {
 			sb.WriteString(" ")
 		case 3:
 			sb.WriteString(r.Pick(",", ";", "<", ">", "=", ":"))
+		case 4:
+			if r.P(40) { // bytes above 0x7f: UTF-8 sequences of 2, 3 and 4 bytes, and a stray high byte
+				sb.WriteString(r.Pick("\xc3\xa9", "\xe2\x82\xac", "\xf0\x9d\x84\x9e", "\xff", "\x80"))
+			} else {
+				sb.WriteByte(tokChars[r.N(62)])
+			}
 		default:
 			sb.WriteByte(tokChars[r.N(62)])
 		}
@@ -508,6 +514,13 @@ func (r *Rng) genValue(t int, lws bool, method string, ms *MsgSpec) string {
 	case 1, 2:
 		return r.NameAddr(lws, false).Text
 	case 3:
+		if r.P(12) { // hex / decimal blocks directly before and after an address (the class function cuts the address out)
+			ip := r.Pick("10.0.0.1", "192.168.1.255", "1.2.3.4", "::1", "fe80::1:2", "[2001:db8::1]")
+			return r.RandBytes("0123456789abcdefABCDEF", 0, 9) + r.Pick("", "-", "@", ".", ":") + ip + r.Pick("", "-", "@", ".") + r.RandBytes("0123456789abcdef-", 0, 12)
+		}
+		if r.P(2) { // very long identifiers (the length class saturates)
+			return strings.Repeat(r.Pick("g", "0f", "x-", "9."), 400+r.N(700)) + r.Pick("", "@10.0.0.1")
+		}
 		return r.Token(4, 20) + r.Pick("", "@"+r.Host())
 	case 4:
 		d := fmt.Sprint(r.N(1000000))
